@@ -186,7 +186,7 @@ func (c16) Gen(env *Env, seed uint64, tier string, i int) *Case {
 // c16Inputs turns the world into one with a per-file or per-path input
 // failure at a random position.
 func c16Inputs(c *Case, r *world.PRNG) {
-	kind := r.Pick([]string{"huge-patch", "many-unparseable", "misfit", "missing-path", "unreadable-patch", "unreadable-target", "missing-list-member", "unparseable", "unparseable-patch", "dir-unreadable", "rewrite-error", "rewrite-error"})
+	kind := r.Pick([]string{"huge-patch", "literal-metachar-path", "many-unparseable", "misfit", "missing-path", "unreadable-patch", "unreadable-target", "missing-list-member", "unparseable", "unparseable-patch", "dir-unreadable", "rewrite-error", "rewrite-error"})
 	c.Extra["input_failure"] = kind
 	switch kind {
 	case "huge-patch":
@@ -210,9 +210,48 @@ func c16Inputs(c *Case, r *world.PRNG) {
 		p := c.AddFile("zz_huge_target.go", []byte("package sample\n\nfunc h() {\n\tvfHugeOld()\n}\n"), "match", nil, "huge-patch")
 		c.Targets = append(c.Targets, strings.TrimPrefix(p, ProjDir+"/"))
 		c.Flags.Diff, c.Flags.Print = false, false
+	case "literal-metachar-path":
+		// a requested file whose name contains characters that mean something to
+		// a shell: gopatch is given the literal path and patches that file, not
+		// what the characters would match as a pattern
+		dir := r.Pick([]string{"api/v[2]", "gen[ab]", "what?", "star*dir", "a[", "[x]"})
+		fn := r.Pick([]string{"client.go", "c[l]ient.go", "cl?ent.go"})
+		plain := strings.NewReplacer("[2]", "2", "[ab]", "a", "?", "t", "*", "", "[x]", "x", "[l]", "l").Replace(dir + "/" + fn)
+		c.AddPatch("meta.patch", "p", []byte("@@\n@@\n-vfGlobOld()\n+vfGlobNew()\n"), nil, nil)
+		src := []byte("package sample\n\nfunc h() {\n\tvfGlobOld()\n}\n")
+		p := c.AddFile(dir+"/"+fn, src, "match", nil, "metachar")
+		c.Extra["metachar"] = p
+		if plain != dir+"/"+fn {
+			c.Extra["metachar_sibling"] = c.AddFile(plain, src, "bystander", nil, "metachar")
+		}
+		keep := c.Targets[:0:0]
+		for _, t := range c.Targets {
+			// only explicitly named files: the sibling is not requested
+			if strings.HasSuffix(t, ".go") {
+				keep = append(keep, t)
+			}
+		}
+		c.Targets = append(keep, strings.TrimPrefix(p, ProjDir+"/"))
+		c.Flags.Diff, c.Flags.Print = false, false
 	case "many-unparseable":
-		for k := 0; k < 12; k++ {
-			c.AddFile(fmt.Sprintf("bad/e%02d.go", k), UnparseableFile(r), "unparseable", nil, "")
+		// a dozen, or a number of failures at which a count that is kept in too
+		// narrow a place wraps around
+		n := []int{12, 12, 255, 256, 257, 512, 1024}[r.Intn(7)]
+		for k := 0; k < n; k++ {
+			data := UnparseableFile(r)
+			if n > 12 {
+				data = []byte("package bad\n\nfunc {\n")
+			}
+			c.AddFile(fmt.Sprintf("bad/e%04d.go", k), data, "unparseable", nil, "")
+		}
+		if n > 12 {
+			// the number of failures of the run is exactly n: nothing else in it fails
+			for _, f := range append([]FileMeta(nil), c.Files...) {
+				if (f.Role == "unparseable" || f.Role == "misfit" || f.Role == "rewrite-error") && !strings.HasPrefix(f.Path, ProjDir+"/bad/") {
+					c.DropFile(f.Path)
+				}
+			}
+			c.Extra["failures"] = fmt.Sprint(n)
 		}
 		c.Targets = []string{"."}
 	case "unparseable":
@@ -255,7 +294,17 @@ func c16Inputs(c *Case, r *world.PRNG) {
 		c.Targets = append(c.Targets, strings.TrimPrefix(p, ProjDir+"/"))
 	case "missing-path":
 		pos := r.Intn(len(c.Targets) + 1)
-		name := r.Pick([]string{"nosuch", "nosuch.go", "pkg/none/...", "/sim/w/absent"})
+		name := r.Pick([]string{"nosuch", "nosuch.go", "pkg/none/...", "/sim/w/absent", "intrenal/*.go", "nosuch[1].go", "what?.go", "pkg/v[2]/...", "*.go"})
+		if name == "*.go" {
+			// a pattern the shell left alone because nothing matched it
+			c.Targets = nil
+			for _, f := range append([]FileMeta(nil), c.Files...) {
+				if !strings.Contains(strings.TrimPrefix(f.Path, ProjDir+"/"), "/") {
+					c.DropFile(f.Path)
+				}
+			}
+			pos = 0
+		}
 		t := append([]string{}, c.Targets[:pos]...)
 		t = append(t, name)
 		t = append(t, c.Targets[pos:]...)
@@ -859,6 +908,19 @@ func c16EvalInputs(env *Env, c *Case) []Violation {
 		g := FindState(r.Final, ProjDir+"/zz_huge_target.go")
 		if r.Exit == 0 && (g == nil || !bytes.Contains(g.Data, []byte("vfHugeNew()"))) {
 			add("exit-status", "zero-but-unpatched", fmt.Sprintf("exit status 0 but the change at the end of a %d-byte patch was not applied to zz_huge_target.go", len(c.Patches[len(c.Patches)-1].Data)))
+		}
+		return vs
+	}
+	if kind == "literal-metachar-path" {
+		env.Probe("path-with-shell-metacharacters")
+		g := FindState(r.Final, c.Extra["metachar"])
+		if r.Exit == 0 && (g == nil || !bytes.Contains(g.Data, []byte("vfGlobNew()"))) {
+			add("exit-status", "zero-but-unpatched", fmt.Sprintf("exit status 0 but the requested file %s was not patched; stderr %q", c.Extra["metachar"], clip(stderr, 300)))
+		}
+		if sp := c.Extra["metachar_sibling"]; sp != "" {
+			if g := FindState(r.Final, sp); g == nil || bytes.Contains(g.Data, []byte("vfGlobNew()")) {
+				add("isolation", "unrequested-file-patched", fmt.Sprintf("%s was not requested (the argument was the literal path %s) and was patched", sp, c.Extra["metachar"]))
+			}
 		}
 		return vs
 	}
